@@ -167,7 +167,8 @@ package ext
 // normalizeHeaderValue compacts a folded value in place; everything after the value must stay
 // byte-identical and in place, otherwise what follows the header block (body, pipelined request) moves.
 //@ func normalizeHeaderValue(ov, ob, headerLength) nv, nb, nhl
-//@   props C02
+//@   props C02, C01
+//@   replay-go buf := []byte("X-Folded: one;\r\n two \r\nB: c\r\n\r\nBODY"); var s HeaderScanner; s.B = buf; got := ""; for s.Next() { got += string(s.Key) + "=" + string(s.Value) + "|" }; if s.Err != nil || got != "X-Folded=one; two|B=c|" || string(s.B) != "BODY" { fmt.Printf("VCGO-VIOLATED a folded header whose last line has trailing blanks is scanned as %q (err %v), rest %q; want X-Folded=one; two|B=c| and rest BODY\n", got, s.Err, s.B) }
 //@   nosafety
 //@   replay-go buf := []byte("A: b\r\n c\r\n\r\nBODYBODY"); var s HeaderScanner; s.B = buf; for s.Next() {}; if string(buf[len(buf)-8:]) != "BODYBODY" { fmt.Printf("VCGO-VIOLATED scanning a folded header moved the bytes after the header block: buffer is now %q, HLen=%d for a 12-byte block\n", buf, s.HLen) }
 //@   requires sameArray(ov, ob) && off(ov) == off(ob) && len(ov) <= len(ob) && len(ob) <= cap(ob)
@@ -191,7 +192,7 @@ package ext
 //@ macro hsInv(s) = 0 <= s.HLen && s.HLen + len(s.B) <= 281474976710656 && hsRep(s)
 //@ macro hsCached(s) = s.initialized && s.nextColon >= 0
 //@ func HeaderScanner.Next(s) r
-//@   props C02, C03
+//@   props C02, C03, C01
 //@   requires hsInv(s)
 //@   modifies s._all, mem
 //@   ensures r ==> hsInv(s)
